@@ -1,21 +1,29 @@
 /-
-C16 — generator-defined fields carry generator output and are not edited behind it.   (PARTIAL, see §6)
+C16 — generator-defined fields carry generator output and are not edited behind it.
 
-Model: `Model/Gen.lean` (trees with `sources` and read-only flags, `generate`, `fuzzGen`, `regen`, the
-invariant `GenInv`, its checker `genInvB`).  `Generated/GenFlags.lean` is rewritten on every run from /repo's
-source by `harness/translate_gen.py`; the theorems below are stated for those constants.
-Tie: `harness/props/c16.py` wraps the generator calls of real runs, sends every emitted tree and every population
-member (with sources, flags and the call log) to `genInvB` (proved ↔ `GenInv` here), and compares `generate` /
-`regen` / `replaceAt` with the real `Grammar.generate` / `replace_multiple`.
+Model: `Model/Gen.lean` (trees with `sources` and read-only flags, `generate`, `fuzzGen`, `regen`, the invariant
+`GenInv`, its checker `genInvB`) and `Model/GenReplace.lean` (the WHOLE of `DerivationTree.replace_multiple` as one
+function `replaceTop`, with `populate_sources`, `derive_sources`, `_topological_sort`, `derive_generator_output`,
+the generator as an oracle with a call log).  `Generated/GenFlags.lean` is rewritten on every run from /repo's source
+by `harness/translate_gen.py`.
+Tie: `harness/props/c16.py` (a) runs the REAL `replace_multiple` on real trees with sources (constant / random /
+dependent / converter / nested / chained generators; replacements aimed at generated fields, their arguments, nodes
+inside generated output, nodes outside, several at once) and compares tree, sources, read-only flags and generator
+call log with `replaceTop` exactly; (b) sends every emitted tree and population member to `genInvB`.
+
+PROVED for the whole function (§6): `C16_replace_multiple_inv` (invariant kept for all trees / replacement lists /
+generator oracles / fuel, given the installed copies meet it as `populate_sources` left them),
+`C16_replace_multiple_generated_untouched`, `C16_replace_multiple_inv_genfree` (no proviso for generator-free
+replacement material), `C16_reachable_inv_whole` (all sequences with the whole function as a step).
+REFUTED: the unconditional `C16_FullStatement` (`C16_FullStatement_refuted`: a converter that is not inverse to its
+generator; `C16_whole_parse_repair_breaks_inv`: F31 through the whole function).
 Every `theorem` in this file is an obligation audited with `#print axioms`.
 -/
 import Proofs.Gen
+import Proofs.GenReplace
 import Generated.GenFlags
 namespace FV.Gen
 open GTree
-
-/-- the parser returns children whose text is the value it was given (its fit with the rule is C04/C05) -/
-def ParseFits (parse : Parser) : Prop := ∀ s v kids, parse s v = some kids → textL kids = v
 
 /-! ## 0. what the current source does (regenerated constants) -/
 
@@ -279,24 +287,195 @@ theorem C16_regen_current :
     rw [hflag]
     exact C16_regen_writable_breaks_inv.1
 
-/-! ## 6. what is NOT proved (why this file is `partial`)
+/-! ## 6. `replace_multiple` as one function (`Model/GenReplace.lean`: `replaceG` / `replaceTop`)
 
-`replace_multiple` as a whole — its recursion through `sources`, the cascade of `regen_children`, `regen_params`
-with converters (`derive_sources`), `populate_sources` on the installed copy — is not modelled as one function;
-the theorems above cover its building blocks (read-only refusal, replacement outside generated output,
-regeneration) and every sequence of those (`C16_reachable_inv`).  That the real recursion only ever performs
-these steps is checked by correspondence and by running `genInvB` on every real tree, not proved.
-The full statement, for a faithful recursive model `replaceG` of `replace_multiple`, would be: -/
+The model follows tree.py line by line: recursion through `sources` then children, the replacement branch (copy
+without its own sources, recursion into the copy, `populate_sources` → `derive_sources` with converters and
+`_topological_sort`), `regen_children` (with the `self_is_generator_child` walk, membership by value) and
+`regen_params`; generators are an oracle with a call log.  `Out.inst` lists the installed copies as
+`populate_sources` left them (outermost ones; with the symbols above them). -/
 
-/-- full statement (NOT proved), for a faithful model `replaceG` of the whole of `replace_multiple`
-    (replacement list keyed by child/source paths, threading the call log): it keeps the invariant whenever the
-    individual and the replacement trees meet it -/
+/-- **`replace_multiple` keeps the invariant** — for all trees, replacement lists, generators (oracle), parsers
+    that return the text they were given, and fuel: if the tree meets `GenInv` (and carries sources only at
+    generator-defined nodes, `srcOKB`), then so does the result, with respect to the grown call log, *provided the
+    copies that were installed meet it as `populate_sources` left them*.  Everything else the function does — the
+    walk through sources, refusing read-only nodes, re-running generators whose arguments changed (cascading
+    upwards through sources of sources), re-marking their output, clearing sources of other nodes — is covered
+    unconditionally.  The proviso cannot be dropped: `C16_whole_parse_repair_breaks_inv`,
+    `C16_FullStatement_refuted`. -/
+theorem C16_replace_multiple_inv (E : Env) (hp : ParseFits E.parse) (repl : Repl) (fuel : Nat) (t : GTree)
+    (log : Log) (o : Out) (hinv : GenInv E.S log [] t) (hsrc : srcOKB E.S [] t = true)
+    (h : replaceTop E repl fuel t log = .ok o)
+    (hi : ∀ i ∈ o.inst, GenInv E.S o.log i.1 i.2 ∧ srcOKB E.S i.1 i.2 = true) :
+    GenInv E.S o.log [] o.tree ∧ srcOKB E.S [] o.tree = true ∧ (∀ e ∈ log, e ∈ o.log) := by
+  have hG := (replace_inv E repl hp fuel).1 [] [] t log o trivial hinv hsrc h
+  exact ⟨hG.1 o.log (LogLe.refl _) (fun i hm => (hi i hm).1), hG.2 (fun i hm => (hi i hm).2),
+    (replace_mono E repl fuel).1 _ _ _ _ _ h⟩
+
+/-- **generated output is not edited**: on a subtree that is read-only throughout (what lies below a
+    generator-defined node), whatever the replacement list says, `replace_multiple` runs no generator, installs
+    nothing, and returns the same symbols and text, still read-only -/
+theorem C16_replace_multiple_generated_untouched (E : Env) (repl : Repl) (fuel : Nat) (ctx : List Frame)
+    (path : List Nat) (t : GTree) (log : Log) (o : Out) (hro : allRO t = true)
+    (h : replaceG E repl fuel ctx path t log = .ok o) :
+    o.log = log ∧ o.inst = [] ∧ allRO o.tree = true ∧ beqShape o.tree t = true ∧ o.tree.text = t.text := by
+  obtain ⟨a, b, c, d⟩ := (replace_ro E repl fuel).1 ctx path t log o hro h
+  exact ⟨a, b, c, d, beqShape_text _ _ d⟩
+
+/-- **with generator-free replacement material** (no generator-defined symbol in any replacement: plain mutation,
+    crossover of plain subtrees, repairs of ordinary fields) the proviso holds by itself: the whole of
+    `replace_multiple` keeps the invariant -/
+theorem C16_replace_multiple_inv_genfree (E : Env) (hp : ParseFits E.parse) (repl : Repl) (fuel : Nat) (t : GTree)
+    (log : Log) (o : Out) (hinv : GenInv E.S log [] t) (hsrc : srcOKB E.S [] t = true)
+    (hfree : ∀ r ∈ repl, genFreeB E.S r.2 = true) (h : replaceTop E repl fuel t log = .ok o) :
+    GenInv E.S o.log [] o.tree ∧ srcOKB E.S [] o.tree = true ∧ (∀ e ∈ log, e ∈ o.log) := by
+  have hr : ReplFree E.S repl := fun q r hm => hfree (q, r) hm
+  have hf := (replace_inst_free E repl hr fuel).1 _ _ _ _ _ h
+  refine C16_replace_multiple_inv E hp repl fuel t log o hinv hsrc h ?_
+  intro i hm
+  obtain ⟨x, hx, hxe⟩ := hf i hm
+  rw [hxe]
+  exact genFree_inv E.S o.log i.1 x hx
+
+/-- the property for a whole-function model, at full strength: whenever the individual and the replacement trees
+    meet the invariant, so does the result — for every generator oracle and fuel -/
 def C16_FullStatement
-    (replaceG : Spec → Parser → Log → GTree → List (List Nat × GTree) → Option (GTree × Log)) : Prop :=
-  ∀ (S : Spec) (parse : Parser), ParseFits parse →
-    ∀ (log log' : Log) (t t' : GTree) (repl : List (List Nat × GTree)),
-      GenInv S log [] t → (∀ r ∈ repl, GenInv S log [] r.2) → replaceG S parse log t repl = some (t', log') →
-      GenInv S log' [] t'
+    (replaceW : Env → Repl → Nat → GTree → Log → Except Err Out) : Prop :=
+  ∀ (E : Env), ParseFits E.parse →
+    ∀ (repl : Repl) (fuel : Nat) (t : GTree) (log : Log) (o : Out),
+      GenInv E.S log [] t → srcOKB E.S [] t = true →
+      (∀ r ∈ repl, GenInv E.S log [] r.2 ∧ srcOKB E.S [] r.2 = true) →
+      replaceW E repl fuel t log = .ok o → GenInv E.S o.log [] o.tree
+
+/-! ### why the proviso is there: two witnesses through the whole function -/
+
+/-- the F31 witness through the whole function: `<g> := "abc"`, equality repair installs the parse of "xyz" on the
+    (writable, same-symbol) node `<g>`; `populate_sources` marks the children read-only and adopts the text -/
+def exE : Env := ⟨{ gens := [("<g>", [])], rules := ["<start>", "<g>"] }, fun _ v => some [.leaf v false],
+  fun _ _ _ => some [97, 98, 99]⟩
+def exRepairParsed : GTree := .node "<g>" false [.leaf [120, 121, 122] false] []
+
+theorem C16_whole_parse_repair_breaks_inv :
+    genInvB exE.S exLog [] exT = true ∧ srcOKB exE.S [] exT = true ∧
+    (match replaceTop exE [([0], exRepairParsed)] 20 exT exLog with
+     | .ok o => beqTree o.tree (replaceAt exT [0] exRepair) && o.log == exLog && !genInvB exE.S o.log [] o.tree
+         && o.inst.any (fun i => !genInvB exE.S o.log i.1 i.2)
+     | .error _ => false) = true := by decide
+
+/-- `<g> := f(<a>)` with a converter `<a> := h(<g>)` that is not an inverse of `f` (f gives "x", h gives "q") -/
+def wS : Spec := { gens := [("<g>", ["<a>"]), ("<a>", ["<g>"])], rules := ["<start>", "<g>", "<a>"] }
+def wE : Env := ⟨wS, fun _ v => some [.leaf v false], fun _ s _ => if s == "<a>" then some [113] else some [120]⟩
+/-- `<g>` = "x", generated from the recorded argument `<a>` = "p" -/
+def wG : GTree := .node "<g>" false [.leaf [120] true] [.node "<a>" false [.leaf [112] false] []]
+def wT : GTree := .node "<start>" false [wG, .leaf [45] false] []
+def wLog : Log := [⟨"<g>", [[112]], [120]⟩]
+
+/-- **the full statement is false of the code as it is**: crossover of a generated field onto itself.  Individual
+    and replacement meet the invariant; the installed copy loses its recorded argument, `populate_sources` derives
+    a new one with the converter ("q"), and the field now claims to be `f("q")`, which was never computed. -/
+theorem C16_FullStatement_refuted : ¬ C16_FullStatement replaceTop := by
+  intro hfull
+  have hp : ParseFits wE.parse := by
+    intro s v kids h
+    simp only [wE, Option.some.injEq] at h
+    subst h
+    simp [textL, text]
+  have h1 : GenInv wE.S wLog [] wT := (genInvB_iff _ _ _ _).1 (by decide)
+  have h2 : ∀ r ∈ [(([0] : List Nat), wG)], GenInv wE.S wLog [] r.2 ∧ srcOKB wE.S [] r.2 = true := by
+    intro r hr
+    simp only [List.mem_singleton] at hr
+    subst hr
+    exact ⟨(genInvB_iff _ _ _ _).1 (by decide), by decide⟩
+  have hb : (match replaceTop wE [([0], wG)] 50 wT wLog with
+             | .ok o => genInvB wE.S o.log [] o.tree
+             | .error _ => true) = false := by decide
+  cases hrun : replaceTop wE [([0], wG)] 50 wT wLog with
+  | error e => rw [hrun] at hb; simp at hb
+  | ok o =>
+    have := (genInvB_iff _ _ _ _).2 (hfull wE hp _ 50 wT wLog o h1 (by decide) h2 hrun)
+    rw [hrun] at hb
+    simp only at hb
+    rw [hb] at this
+    simp at this
+
+/-! ### the cascade, on a concrete run (non-vacuity of `C16_replace_multiple_inv`) -/
+
+/-- `<a> := up(<b>)`, `<b> := rev(<c>)`, `<c>` plain: sources of sources -/
+def cS : Spec := { gens := [("<a>", ["<b>"]), ("<b>", ["<c>"])], rules := ["<start>", "<a>", "<b>", "<c>"] }
+/-- the oracle: the first call (`<b>` on "ba") returns "ab", the second (`<a>` on "ab") returns "AB" -/
+def cE : Env := ⟨cS, fun _ v => some [.leaf v false],
+  fun n _ _ => if n == 2 then some [97, 98] else some [65, 66]⟩
+def cC : GTree := .node "<c>" false [.leaf [99] false] []
+def cB : GTree := .node "<b>" false [.leaf [99] true] [cC]
+def cA : GTree := .node "<a>" false [.leaf [67] true] [cB]
+def cT : GTree := .node "<start>" false [cA, .leaf [47] false] []
+def cLog : Log := [⟨"<a>", [[99]], [67]⟩, ⟨"<b>", [[99]], [99]⟩]
+def cNew : GTree := .node "<c>" false [.leaf [98, 97] false] []
+
+/-- replacing the argument of the argument: `<c>` (path: child 0, source 0, source 0) becomes "ba"; `<b>` is
+    re-run on it, then `<a>` on the new `<b>`; both outputs are read-only again; the hypotheses of
+    `C16_replace_multiple_inv` hold and so does its conclusion -/
+theorem C16_cascade_example :
+    genInvB cS cLog [] cT = true ∧ srcOKB cS [] cT = true ∧
+    (match replaceTop cE [([0, 1, 1], cNew)] 30 cT cLog with
+     | .ok o =>
+       beqTree o.tree (.node "<start>" false
+         [.node "<a>" false [.leaf [65, 66] true]
+            [.node "<b>" false [.leaf [97, 98] true] [.node "<c>" false [.leaf [98, 97] false] []]],
+          .leaf [47] false] [])
+       && o.log == (⟨"<a>", [[97, 98]], [65, 66]⟩ :: ⟨"<b>", [[98, 97]], [97, 98]⟩ :: cLog)
+       && o.inst.all (fun i => genInvB cS o.log i.1 i.2 && srcOKB cS i.1 i.2)
+       && genInvB cS o.log [] o.tree && srcOKB cS [] o.tree
+     | .error _ => false) = true := by decide +kernel
+
+/-! ### all sequences with the whole function as a step -/
+
+/-- (log, population) pairs reachable by fresh trees that meet the invariant, more logging, selection, and
+    **`replace_multiple` itself** (crossover, mutation, repair: any replacement list, any target paths) whose
+    installed copies meet the invariant as `populate_sources` left them -/
+inductive GReachW (E : Env) : Log → List GTree → Prop
+  | init : GReachW E [] []
+  | fresh {log : Log} {pop : List GTree} {t : GTree} :
+      GReachW E log pop → GenInv E.S log [] t → srcOKB E.S [] t = true → GReachW E log (t :: pop)
+  | log {log : Log} {pop : List GTree} (e : LogEntry) : GReachW E log pop → GReachW E (e :: log) pop
+  | replaceMultiple {log : Log} {pop : List GTree} {t : GTree} {repl : Repl} {fuel : Nat} {o : Out} :
+      GReachW E log pop → t ∈ pop → replaceTop E repl fuel t log = .ok o →
+      (∀ i ∈ o.inst, GenInv E.S o.log i.1 i.2 ∧ srcOKB E.S i.1 i.2 = true) →
+      GReachW E o.log (o.tree :: pop)
+  | select {log : Log} {pop pop' : List GTree} :
+      GReachW E log pop → (∀ t ∈ pop', t ∈ pop) → GReachW E log pop'
+
+/-- **the invariant holds in every population reachable with the whole `replace_multiple` as a step** -/
+theorem C16_reachable_inv_whole (E : Env) (hp : ParseFits E.parse) (log : Log) (pop : List GTree)
+    (h : GReachW E log pop) : ∀ t ∈ pop, GenInv E.S log [] t ∧ srcOKB E.S [] t = true := by
+  induction h with
+  | init => intro t ht; simp at ht
+  | fresh _ hinv hsrc ih =>
+    intro t ht
+    rcases List.mem_cons.1 ht with rfl | ht
+    · exact ⟨hinv, hsrc⟩
+    · exact ih t ht
+  | log e _ ih =>
+    intro t ht
+    exact ⟨genInv_mono (fun x hx => List.mem_cons_of_mem _ hx) _ t (ih t ht).1, (ih t ht).2⟩
+  | @replaceMultiple log0 pop0 t0 repl0 fuel0 o0 _ hm hrun hinst ih =>
+    intro t ht
+    obtain ⟨a, b, c⟩ := C16_replace_multiple_inv E hp repl0 fuel0 t0 log0 o0 (ih _ hm).1 (ih _ hm).2 hrun hinst
+    rcases List.mem_cons.1 ht with rfl | ht
+    · exact ⟨a, b⟩
+    · exact ⟨genInv_mono c _ t (ih t ht).1, (ih t ht).2⟩
+  | select _ hsub ih =>
+    intro t ht
+    exact ih t (hsub t ht)
+
+/-! ### what remains open
+
+* the proviso of `C16_replace_multiple_inv` for replacement material that *contains generator-defined symbols*:
+  whether `populate_sources` → `derive_sources` leaves an installed copy in the invariant depends on the texts
+  (F31: any parsed text is adopted) and on the converters being inverse to the generators
+  (`C16_FullStatement_refuted`).  It is decidable per run (`genInvB`/`srcOKB` on `Out.inst`, which the harness
+  evaluates for every real call); it is a theorem for generator-free material (`…_inv_genfree`).
+* `GReach`/`C16_reachable_inv` (§4, building blocks) are kept; `GReachW`/`C16_reachable_inv_whole` supersede them. -/
 
 /-! ## 7. non-vacuity -/
 
